@@ -406,6 +406,7 @@ pub fn run(seed: u64, n: u64, thorough: bool, corpus: &[String], dir: &str) {
         }
         for v in viol {
             let class = v.split(':').next().unwrap_or("?").to_string();
+            let class = if class == "delivery-id" { "c11-delivery-id".to_string() } else { format!("c07-{}", class) };
             out.violation(&class, &v, &line);
         }
         out.case(&line, &trace);
